@@ -23,7 +23,10 @@ ROOTI = param('rooti', 0)        # 0: builddir, 1: srcdir
 # per-backend unrepresentable characters (established at run time by the representability probe
 # with hand-written reference Makefiles, vpx.props.c04.probe) and known-finding classes
 EXCL = param('excl', ';=\t')
-KF = param('kf', '')             # characters excluded because of open known findings
+# open known findings (known_findings.json): narrow classes excluded from the Make obligations
+KF_GLOB = param('kf_glob', False)     # C04-F9: '[' is backslash-escaped, Make keeps the backslash
+KF_TILDE = param('kf_tilde', False)   # C04-F10: a leading '~' is written as \~, Make keeps the backslash
+KF_QUOTE = param('kf_quote', False)   # C04-F11: "'" inside '$@' / '$<'
 MK = Makefile('build.bfg')
 NF = NinjaFile('build.bfg')
 SRC = (('srcdir', '.'),)
@@ -41,16 +44,25 @@ def _comp_ok(s):
     one-letter-plus-colon drive prefix"""
     if len(s) == 0 or '/' in s or chr(92) in s or s == '.' or s == '..':
         return False
-    if s[1:2] == ':' and SHAPE == 1:
+    if s[1:2] == ':' and SHAPE != 0:
         return False
     return _printable(s)
 
 
 def _in_scope(s, excl):
     for ch in s:
-        if ch in excl or ch in KF:
+        if ch in excl:
             return False
     return True
+
+
+def _kf_make(c):
+    """names covered by open known findings of the Make file-name positions"""
+    if KF_GLOB and '[' in c:
+        return True
+    if KF_TILDE and c[0] == '~' and SHAPE != 0 and ROOTI == 0:
+        return True
+    return False
 
 
 def _mkpath(c):
@@ -77,6 +89,7 @@ def _text(writer_obj, thing, syntax):
 def mt_target(c: str) -> bool:
     """Make rule target
     pre: len(c) == N and _comp_ok(c) and _in_scope(c, EXCL) and not c.endswith(' ') and not c.endswith('&')
+    pre: not _kf_make(c)
     post: _
     """
     p = _mkpath(c)
@@ -86,7 +99,7 @@ def mt_target(c: str) -> bool:
 
 def md_prereq(c: str) -> bool:
     """Make prerequisite
-    pre: len(c) == N and _comp_ok(c) and _in_scope(c, EXCL)
+    pre: len(c) == N and _comp_ok(c) and _in_scope(c, EXCL) and not _kf_make(c)
     post: _
     """
     p = _mkpath(c)
@@ -96,7 +109,7 @@ def md_prereq(c: str) -> bool:
 
 def mo_dir_sentinel(c: str) -> bool:
     """Make order-only directory sentinel <dir>/.dir (backends/make/writer.py directory_deps)
-    pre: len(c) == N and _comp_ok(c) and _in_scope(c, EXCL) and SHAPE != 1
+    pre: len(c) == N and _comp_ok(c) and _in_scope(c, EXCL) and SHAPE != 1 and not _kf_make(c)
     post: _
     """
     p = _mkpath(c)
@@ -111,7 +124,7 @@ def mo_dir_sentinel(c: str) -> bool:
 def mr_auto_var(c: str) -> bool:
     """Make recipe using the quoted automatic variable '$@' / '$<' (define RULE_CC ...): the name
     Make substitutes must reach the tool as one argument
-    pre: len(c) == N and _comp_ok(c) and _in_scope(c, EXCL)
+    pre: len(c) == N and _comp_ok(c) and _in_scope(c, EXCL) and not (KF_QUOTE and chr(39) in c)
     post: _
     """
     p = _mkpath(c)
@@ -124,7 +137,8 @@ def mr_auto_var(c: str) -> bool:
 def mf_find_deps(c: str) -> bool:
     """.bfg_find_deps line written by builtins/find.py write_depfile (makeify form): directory
     names as prerequisites and as targets
-    pre: len(c) == N and _comp_ok(c) and _in_scope(c, EXCL)
+    pre: len(c) == N and _comp_ok(c) and _in_scope(c, EXCL) and not _kf_make(c)
+    pre: not (KF_TILDE and c[0] == '~' and SHAPE != 0)
     post: _
     """
     p = _mkpath(c)
